@@ -3,6 +3,7 @@ package main
 import (
 	"encoding/json"
 	"fmt"
+	"github.com/resgateio/resgate/server/reserr"
 	"net/http"
 	"sort"
 	"strconv"
@@ -1102,6 +1103,178 @@ func suiteThrottle(tier string, r *rng) func(emit func(pureCase)) {
 				}
 			}
 			one(1+r.intn(5), w)
+		}
+	}
+}
+
+// ---------- HTTP paths ----------
+
+func suitePath(tier string, r *rng) func(emit func(pureCase)) {
+	maxLen := 4
+	nRand := 20000
+	if tier == "thorough" {
+		maxLen = 5
+		nRand = 300000
+	}
+	alpha := []string{"a", "/", ".", "%2E", "%2F", "%20", "%0D%0A", "%2A", "%", "%zz", "%4", "*", "b", "%3F", "+", "\x80"}
+	prefixes := []string{"/api/", "/", "/x/y/"}
+	return func(emit func(pureCase)) {
+		one := func(path, query, prefix string) {
+			rid := server.PathToRID(path, query, prefix)
+			c := pureCase{line: "path " + hx(path) + " " + hx(query) + " " + hx(prefix), impl: hx(rid), class: "rid-empty=" + b2s(rid == ""), trivial: rid == ""}
+			emit(c)
+			rid2, act := server.PathToRIDAction(path, query, prefix)
+			emit(pureCase{line: "pathaction " + hx(path) + " " + hx(query) + " " + hx(prefix), impl: hx(rid2) + " " + hx(act), class: "action-empty=" + b2s(act == ""), trivial: rid2 == ""})
+			// C14: whatever reaches the gateway as a resource id is either rejected or hygienic
+			if codec.IsValidRID(rid, true) {
+				name := rid
+				if i := strings.IndexByte(rid, '?'); i >= 0 {
+					name = rid[:i]
+				}
+				if !specHygienic("get." + name) {
+					emit(pureCase{line: "path " + hx(path) + " " + hx(query) + " " + hx(prefix), impl: hx(rid), specErr: "accepted resource id yields an unhygienic subject", class: "violation"})
+				}
+			}
+		}
+		allStrings(alpha, maxLen, func(p string) {
+			one("/api/"+p, "", "/api/")
+		})
+		for i := 0; i < nRand; i++ {
+			pre := prefixes[r.intn(len(prefixes))]
+			p := randString(r, alpha, 8)
+			if r.chance(3, 4) {
+				p = pre + p
+			}
+			one(p, randString(r, []string{"q=a", "&", "x", "%20", ""}, 2), pre)
+		}
+		// round trip on valid rids
+		rids := []string{"m.a", "a.b.c", "q.m?q=a", "cid.{cid}.m", "a-b._~.$&+=:@", "x.y z"}
+		for _, rid := range rids {
+			for _, pre := range prefixes {
+				emit(pureCase{line: "ridpath " + hx(rid) + " " + hx(pre), impl: hx(server.RIDToPath(rid, pre)), class: "ridpath"})
+			}
+		}
+	}
+}
+
+// ---------- HTTP encoders on random graphs ----------
+
+func suiteEncode(tier string, r *rng) func(emit func(pureCase)) {
+	n := 4000
+	if tier == "thorough" {
+		n = 60000
+	}
+	keys := []string{"a", "b", "k\"q", "x<y", "é", "k1", "", "a b"}
+	return func(emit func(pureCase)) {
+		for i := 0; i < n; i++ {
+			nn := 1 + r.intn(6)
+			rids := make([]string, nn)
+			for j := range rids {
+				rids[j] = fmt.Sprintf("t.%c", 'a'+j)
+			}
+			if r.chance(1, 5) {
+				rids[0] = "t.q?x=1&y={z}"
+			}
+			mkVal := func() (codec.Value, string) {
+				switch r.intn(7) {
+				case 0, 1:
+					raw := pick(r, []string{"1", "\"s\"", "null", "true", "-2.5", "\"<&>\""})
+					return codec.Value{RawMessage: json.RawMessage(raw), Type: codec.ValueTypePrimitive}, "p" + hx(raw)
+				case 2:
+					inner := pick(r, []string{`{"a":1}`, `[1,[2]]`, `{"x":{"y":[]}}`})
+					return codec.Value{RawMessage: json.RawMessage(`{"data":` + inner + `}`), Type: codec.ValueTypeData, Inner: json.RawMessage(inner)}, "d" + hx(inner)
+				case 3:
+					rid := pick(r, rids)
+					return codec.Value{RawMessage: json.RawMessage(`{"rid":"` + rid + `","soft":true}`), Type: codec.ValueTypeSoftReference, RID: rid}, "s" + hx(rid)
+				default:
+					rid := pick(r, rids) // any node, incl. itself and ancestors: cycles of every length
+					return codec.Value{RawMessage: json.RawMessage(`{"rid":"` + rid + `"}`), Type: codec.ValueTypeReference, RID: rid}, "r" + hx(rid)
+				}
+			}
+			var nodes []server.VerifNode
+			var toks []string
+			for _, rid := range rids {
+				switch r.intn(5) {
+				case 0:
+					code := pick(r, []string{"system.notFound", "system.timeout", "custom.err"})
+					nodes = append(nodes, server.VerifNode{RID: rid, Err: &reserr.Error{Code: code, Message: "m " + code}})
+					toks = append(toks, hx(rid)+":e:"+hx(fmt.Sprintf(`{"code":%q,"message":%q}`, code, "m "+code)))
+				case 1, 2:
+					m := map[string]codec.Value{}
+					var kvs []string
+					for _, k := range keys[:r.intn(len(keys))] {
+						if r.chance(1, 2) {
+							v, t := mkVal()
+							m[k] = v
+							kvs = append(kvs, hx(k)+"="+t)
+						}
+					}
+					nodes = append(nodes, server.VerifNode{RID: rid, Model: m})
+					toks = append(toks, hx(rid)+":m:"+strings.Join(kvs, ","))
+				default:
+					c := []codec.Value{}
+					var vs []string
+					for k := r.intn(4); k > 0; k-- {
+						v, t := mkVal()
+						c = append(c, v)
+						vs = append(vs, t)
+					}
+					nodes = append(nodes, server.VerifNode{RID: rid, Collection: c})
+					toks = append(toks, hx(rid)+":c:"+strings.Join(vs, ","))
+				}
+			}
+			enc := pick(r, []string{"json", "jsonflat"})
+			pre := pick(r, []string{"/api/", "/", "/v1/x/"})
+			out, err := server.VerifEncodeGET(enc, pre, nodes, rids[0])
+			impl := ""
+			specErr := ""
+			if err != nil {
+				impl = "error:" + err.Error()
+			} else {
+				impl = canonJSONText(string(out))
+				if strings.HasPrefix(impl, "unparsable:") || strings.HasPrefix(impl, "trailing-garbage:") {
+					specErr = "encoder output is not well-formed JSON"
+				}
+			}
+			emit(pureCase{line: "enc " + b2s(enc == "jsonflat") + " " + hx(pre) + " " + hx(rids[0]) + " " + strings.Join(toks, " "), impl: impl,
+				specErr: specErr, jsonOut: true, class: fmt.Sprintf("%s nodes=%d", enc, nn), trivial: nn == 1})
+		}
+	}
+}
+
+// ---------- status tables (spec monitor with a failing input) ----------
+
+func suiteStatus(tier string, r *rng) func(emit func(pureCase)) {
+	return func(emit func(pureCase)) {
+		want := map[string]int{"system.notFound": 404, "system.methodNotFound": 404, "system.timeout": 404, "system.accessDenied": 401,
+			"system.forbidden": 403, "system.methodNotAllowed": 405, "system.subjectTooLong": 414, "system.internalError": 500, "system.serviceUnavailable": 503}
+		codes := []string{"system.notFound", "system.methodNotFound", "system.timeout", "system.accessDenied", "system.forbidden", "system.methodNotAllowed",
+			"system.subjectTooLong", "system.internalError", "system.serviceUnavailable", "system.invalidParams", "system.invalidQuery", "system.noSubscription",
+			"system.invalidRequest", "system.unsupportedProtocol", "system.deleted", "system.badRequest", "system.notImplemented", "custom.x", "", "system.notfound"}
+		for i := 0; i < 200; i++ {
+			codes = append(codes, "system."+randString(r, []string{"not", "Found", "time", "out", "x", "."}, 3))
+		}
+		for _, c := range codes {
+			got := server.VerifErrorStatus(c)
+			w, ok := want[c]
+			if !ok {
+				w = 400
+			}
+			pc := pureCase{line: "errstatus " + hx(c), impl: fmt.Sprint(got), class: fmt.Sprint(got)}
+			if got != w {
+				pc.specErr = fmt.Sprintf("error code %q maps to %d, the property fixes %d", c, got, w)
+			}
+			emit(pc)
+		}
+		for s := -5; s <= 1005; s++ {
+			st := s
+			m := &codec.Meta{Status: &st}
+			d := m.IsDirectResponseStatus()
+			pc := pureCase{line: fmt.Sprintf("direct %d", s), impl: b2s(d), class: "direct=" + b2s(d)}
+			if d != (s >= 300 && s < 600) {
+				pc.specErr = fmt.Sprintf("meta status %d honoured=%v", s, d)
+			}
+			emit(pc)
 		}
 	}
 }
